@@ -78,23 +78,38 @@ pub fn build_enr2(sk: &SigningKey, seq: u64, a: EnrAddr, b: EnrAddr, pad_to: Opt
         if let Some(n) = pad {
             builder.add_value("zpad", &vec![0xABu8; n].as_slice());
         }
-        builder.build(&key).expect("record within size limit")
+        builder.build(&key)
     };
     match pad_to {
-        None => make(None),
+        None => make(None).expect("record within size limit"),
         Some(target) => {
-            // Find the padding that makes the encoded record exactly `target` bytes (or as close
-            // below as the rlp length steps allow).
-            let base = rlp_ref::encode_record(&make(Some(1))).len();
-            let mut pad = target.saturating_sub(base) + 1;
-            loop {
-                let enr = make(Some(pad.max(1)));
-                let len = rlp_ref::encode_record(&enr).len();
-                if len <= target || pad <= 1 {
-                    return enr;
+            // Find the padding that makes the encoded record exactly `target` bytes (or the
+            // closest size below that the rlp length steps allow).
+            let mut pad = 1usize;
+            let mut best = make(Some(pad)).expect("small record");
+            for _ in 0..40 {
+                let len = rlp_ref::encode_record(&best).len();
+                if len >= target {
+                    break;
                 }
-                pad -= len - target;
+                let mut step = target - len;
+                let mut advanced = false;
+                while step >= 1 {
+                    match make(Some(pad + step)) {
+                        Ok(enr) if rlp_ref::encode_record(&enr).len() <= target => {
+                            pad += step;
+                            best = enr;
+                            advanced = true;
+                            break;
+                        }
+                        _ => step /= 2,
+                    }
+                }
+                if !advanced {
+                    break;
+                }
             }
+            best
         }
     }
 }
